@@ -36,6 +36,20 @@ typedef VP_REAL T;
 #define VP_ISNAN(a) ((a) != (a))
 #define VP_ISINF(a) (!VP_ISNAN(a) && VP_ISNAN((a) - (a)))
 #define VP_FINITE(a) (!VP_ISNAN((a) - (a)))
+/* bit pattern of a floating-point lvalue (bit identity: distinguishes +0/-0 and NaN payloads) */
+#ifdef VP_REAL_IS_float
+typedef unsigned int vp_bits_t;
+#else
+typedef unsigned long vp_bits_t;
+#endif
+#define VP_BITS(lv) (*(const vp_bits_t *)&(lv))
+/* identity of two floating-point values (sign of zero distinguished; on the SAT path also the NaN payload).
+ * NOT a pointer cast: cvc5's FP theory has no bit pattern for NaN, so VP_BITS must not be used on SMT paths. */
+#ifdef VP_NATIVE
+#define BEQ(a, b) (VP_BITS(a) == VP_BITS(b))
+#else
+#define BEQ(a, b) __CPROVER_equal((a), (b))
+#endif
 /* NaN-aware equality (bitwise up to the sign of zero / NaN payload) */
 #define FEQ(a, b) (((a) == (b)) || (VP_ISNAN(a) && VP_ISNAN(b)))
 
@@ -141,25 +155,36 @@ static inline size_t vp_min_sz(size_t a, size_t b) { return a < b ? a : b; }
  * a proof then holds for every binary operation, in particular the IEEE one (sound), and formula
  * pins become congruence.  Without VP_AF the same text computes with the real operators (bit-precise).
  * ------------------------------------------------------------------------------------- */
+#include "af_facts.h"
 #if defined(VP_AF) && !defined(VP_NATIVE)
+/* Only multiplication and division are abstracted (their bit-blasted circuits are what SAT cannot
+ * handle); additions, subtractions, comparisons and conversions stay bit-precise.
+ * VP_UFMUL / VP_UFDIV are the pure applications (usable inside contract clauses); vp_fmul / vp_fdiv, which
+ * the extracted code calls, additionally assume the single-operation facts of af_facts.h -- each of which is
+ * itself an obligation proved bit-precisely on the bare C operator (job ieee_facts). */
 T __CPROVER_uninterpreted_fmul(T, T);
 T __CPROVER_uninterpreted_fdiv(T, T);
-T __CPROVER_uninterpreted_fadd(T, T);
-T __CPROVER_uninterpreted_fsub(T, T);
-T __CPROVER_uninterpreted_i2f(size_t);
-#define vp_fmul(a, b) __CPROVER_uninterpreted_fmul((a), (b))
-#define vp_fdiv(a, b) __CPROVER_uninterpreted_fdiv((a), (b))
-#define vp_fadd(a, b) __CPROVER_uninterpreted_fadd((a), (b))
-#define vp_fsub(a, b) __CPROVER_uninterpreted_fsub((a), (b))
-#define vp_i2f(a) __CPROVER_uninterpreted_i2f((size_t)(a))
+#define VP_UFMUL(a, b) __CPROVER_uninterpreted_fmul((a), (b))
+#define VP_UFDIV(a, b) __CPROVER_uninterpreted_fdiv((a), (b))
+static inline T vp_fmul(T a, T b) { T r = __CPROVER_uninterpreted_fmul(a, b); VP_FMUL_FACTS(a, b, r) return r; }
+static inline T vp_fdiv(T a, T b) { T r = __CPROVER_uninterpreted_fdiv(a, b); VP_FDIV_FACTS(a, b, r) return r; }
 #else
+#define VP_UFMUL(a, b) ((a) * (b))
+#define VP_UFDIV(a, b) ((a) / (b))
 #define vp_fmul(a, b) ((a) * (b))
 #define vp_fdiv(a, b) ((a) / (b))
+#endif
 #define vp_fadd(a, b) ((a) + (b))
 #define vp_fsub(a, b) ((a) - (b))
 #define vp_i2f(a) ((T)(a))
-#endif
 #define vp_f2i(a) ((size_t)(a))
+/* content of a VEGAS grid object as a function (accessor abstraction, see specs/vegas_pdf_bin_left_abs.spec) */
+#ifndef VP_NATIVE
+T __CPROVER_uninterpreted_grid(const void *, size_t, size_t);
+#define vp_grid(pdf, d, b) __CPROVER_uninterpreted_grid((const void *)(pdf), (d), (b))
+#endif
+/* the u == 1 guard of vegas_icdf: 1 is replaced by nexttoward(1, 0) */
+#define VP_NUDGE(u) (((u) == (T)1.0) ? __CPROVER_uninterpreted_nexttoward((u), (T)0) : (u))
 
 /* ---------------------------------------------------------------------------------------
  * libm: assumed contracts (DESIGN.md section 4); natively the real functions
@@ -198,9 +223,14 @@ static inline T vp_fabs(T x) { return (x < 0 || (x == 0 && 1 / x < 0)) ? -x : x;
 /* fmax: IEEE maxNum: if one argument is NaN the other is returned */
 static inline T vp_fmax(T x, T y) { return VP_ISNAN(x) ? y : (VP_ISNAN(y) ? x : (x < y ? y : x)); }
 static inline _Bool vp_isfinite(T x) { return VP_FINITE(x); }
-T vp_nexttoward(T x, T y)
-__CPROVER_ensures((x == 1 && y == 0) ==> (__CPROVER_return_value < 1 && __CPROVER_return_value > (T)0.5))
-__CPROVER_assigns();
+T __CPROVER_uninterpreted_nexttoward(T, T);
+static inline T vp_nexttoward(T x, T y)
+{
+  /* assumed libm contract: nexttoward(1, 0) is a value in (1/2, 1) */
+  T r = __CPROVER_uninterpreted_nexttoward(x, y);
+  __CPROVER_assume(!(x == 1 && y == 0) || (r < 1 && r > (T)0.5));
+  return r;
+}
 #endif
 
 #endif
